@@ -1630,6 +1630,74 @@ pub fn perturb(rng: &mut Rng, source: &str) -> String {
 /// to renaming (callbacks spelled with different binder names rotate through the arguments). On
 /// the unchanged tree every launch of such a program hits the cap and the group is discarded;
 /// they are there for changes that make divergent programs *end* (loop detectors, fuel limits).
+/// W13 scale: programs whose *sizes* sit around the points where containers grow, rehash or run
+/// out of reserved room (7/8 of a power of two for hash tables, powers of two for vectors):
+/// that many names in scope at once, with distinctly named binders coming and going while the
+/// tables are that full. Anything that consults a capacity, a load factor, a tombstone count or a
+/// bucket mask only changes its mind on such programs (S55).
+fn scale_program(rng: &mut Rng) -> String {
+    let n = if rng.chance(3, 5) {
+        let pivot = *rng.pick(&[14usize, 28, 56, 112, 224, 448, 448, 448]);
+        // 80 % .. 105 % of the pivot
+        pivot * rng.range(80, 105) / 100
+    } else {
+        // log-uniform between 30 and 600
+        let lo = 30f64.ln();
+        let hi = 600f64.ln();
+        (lo + (hi - lo) * (rng.below(10_000) as f64 / 10_000.0)).exp() as usize
+    };
+    let n = n.max(4);
+    let mut text = String::new();
+    let shape = rng.below(6);
+    match shape {
+        0 | 1 => {
+            // n one-parameter functions, every parameter name distinct
+            for i in 0..n {
+                text.push_str(&format!("f{i} = (p{i} : int) => p{i} + {}\n", i % 7));
+            }
+            text.push_str(&format!("f{} {}\n", rng.below(n), rng.below(9)));
+        }
+        2 => {
+            // n definitions, each with a nested group of its own (names come and go in batches)
+            for i in 0..n {
+                text.push_str(&format!("g{i} = (q{i} : int) => (l{i} = q{i} * 2; m{i} = l{i} + 1; m{i})\n"));
+            }
+            text.push_str(&format!("g{} 1\n", rng.below(n)));
+        }
+        3 => {
+            // a chain: each definition uses the previous one (values only at the ends)
+            text.push_str("c0 = (z : int) => z\n");
+            for i in 1..n {
+                text.push_str(&format!("c{i} = (w{i} : int) => c{} (w{i} + 1)\n", i - 1));
+            }
+            text.push_str(&format!("c{} 0\n", rng.below(n)));
+        }
+        4 => {
+            // the same, ending in a misspelt name (suggestion logic walks the whole scope) and a
+            // type error
+            for i in 0..n {
+                text.push_str(&format!("name{i} = (arg{i} : int) => arg{i}\n"));
+            }
+            let k = rng.below(n);
+            text.push_str(&format!("bad = name{k} true\nnam{k}x 1 + nmae{}\n", rng.below(n)));
+        }
+        _ => {
+            // several hundred names under nested binders (bounded depth: the stack is finite)
+            let depth = n.min(160);
+            for i in 0..n - depth {
+                text.push_str(&format!("k{i} = {i}\n"));
+            }
+            text.push_str("deep = ");
+            for i in 0..depth {
+                text.push_str(&format!("(b{i} : int) => "));
+            }
+            text.push_str(&format!("b0 + b{} + k0\n", depth - 1));
+            text.push_str("deep\n");
+        }
+    }
+    text
+}
+
 fn divergent_program(rng: &mut Rng) -> String {
     let k = rng.range(2, 7);
     let names = ["x", "y", "z", "u", "v", "w", "t"];
@@ -1680,7 +1748,8 @@ fn generate_base(rng: &mut Rng, corpus: &[String]) -> Case {
         }
     };
     match family {
-        0..=21 => Case { family: "W2-clusters", source: cluster_program(rng) },
+        0..=19 => Case { family: "W2-clusters", source: cluster_program(rng) },
+        20..=21 => Case { family: "W13-scale", source: scale_program(rng) },
         22..=33 => {
             let n = rng.range(2, 5);
             Case { family: "W3-multi-fault", source: typed_program(rng, n, false) }
